@@ -45,6 +45,11 @@ func cmdVerify(args []string) {
 		os.Exit(2)
 	}
 	fmt.Printf("loaded in %.1fs, %d functions, %d contracts\n", time.Since(t0).Seconds(), len(e.Funcs), len(e.CS.Order))
+	if os.Getenv("GOVC_NAMES") != "" {
+		for n := range e.Funcs {
+			fmt.Println("  fn", n)
+		}
+	}
 	results := e.RunContracts(func(c *Contract) bool {
 		if *only != "" && !strings.Contains(c.Name, *only) {
 			return false
